@@ -383,14 +383,16 @@ def has_adjacent_nullables(p: Proto) -> bool:
 
 
 def reuses_types(p: Proto) -> bool:
-    """Does some message type occur with more than one (sender, recipient) pair?"""
+    """Does some message type occur with the same sender but more than one recipient?  (That is
+    the situation in which Fandango's ForecastingNonTerminals, keyed by message symbol per
+    sender, merges packets that belong to different occurrences.)"""
     pairs: dict = {}
 
     def walk(n):
         k = n[0]
         if k == "nt":
             if p.is_msg(n):
-                pairs.setdefault(n[1], set()).add((n[2], n[3]))
+                pairs.setdefault((n[1], n[2]), set()).add(n[3])
         elif k in ("cat", "alt"):
             for x in n[1]:
                 walk(x)
